@@ -1,63 +1,308 @@
 // C19: a swarm with a reachable seeder converges to the exact blob.
+//
+// Real tracker, origins and agents (schedulers, stores, HTTP clients/servers)
+// over the simulated HTTP and TCP networks. Faults: agent departures (Stop),
+// agent and origin crashes (all but one seeder), partitions that heal, link
+// latency/short reads, slow tasks, and one peer that serves corrupted pieces
+// (an agent whose cached copy was damaged on disk after it completed).
+// Safety: an agent that reports success holds exactly the blob.
+// Liveness: after faults stop, with at least one honest seeder reachable,
+// every remaining agent's download returns nil within a bound computed from the
+// run's configuration.
 package c19
 
 import (
 	"bytes"
 	"fmt"
+	"os"
+	"path/filepath"
 	"testing"
 	"time"
 
 	"github.com/uber/kraken/core"
+	"github.com/uber/kraken/lib/torrent/scheduler/connstate"
+	"github.com/uber/kraken/lib/torrent/scheduler/dispatch"
 
 	"kverif/cluster"
 	"kverif/kit"
-	ssync "kverif/shim/sync"
 	simrt "kverif/sim"
 )
 
+type dl struct {
+	agent    *cluster.Agent
+	idx      int
+	issued   time.Duration
+	returned bool
+	err      error
+	at       time.Duration
+	gone     bool // stopped or crashed by the workload
+	corrupt  bool // the designated corrupting peer
+}
+
+func drawSize(tp *simrt.Tape, pl int64, max int) int {
+	switch tp.Draw(6) {
+	case 0:
+		return 1 + tp.Draw(int(pl))
+	case 1:
+		return int(pl) * (1 + tp.Draw(4))
+	case 2:
+		return 0
+	case 3:
+		return int(pl)*(1+tp.Draw(3)) - 1
+	default:
+		return tp.Draw(max)
+	}
+}
+
 func body(s *simrt.Sim, tier string) {
 	tp := s.Tape
-	p := cluster.Params{PieceLength: int64(1024 << tp.Draw(4)), Sched: cluster.DefaultSched(),
+	thorough := tier == "thorough"
+	sc := cluster.DefaultSched()
+	sc.SeederTTI, sc.LeecherTTI = 2*time.Hour, 2*time.Hour // idle drops are C18's subject
+	sc.ConnTTI = time.Duration(5+tp.Draw(26)) * time.Second
+	sc.ConnTTL = time.Duration(1+tp.Draw(10)) * time.Minute
+	sc.PreemptionInterval = time.Duration(1+tp.Draw(15)) * time.Second
+	sc.EmitStatsInterval = time.Minute
+	sc.ConnState = connstate.Config{MaxOpenConnectionsPerTorrent: 1 + tp.Draw(4), BlacklistDuration: time.Duration(2+tp.Draw(29)) * time.Second}
+	sc.Dispatch = dispatch.Config{AgentPipelineLimit: 1 + tp.Draw(5), OriginPipelineLimit: 1 + tp.Draw(5),
+		PieceRequestMinTimeout: time.Duration(2+tp.Draw(7)) * time.Second, DisableEndgame: tp.Chance(300)}
+	if tp.Chance(400) {
+		sc.Dispatch.PieceRequestPolicy = "rarest_first"
+	}
+	p := cluster.Params{PieceLength: int64(1024 << tp.Draw(5)), Sched: sc,
 		AnnounceInterval: time.Duration(1+tp.Draw(5)) * time.Second, PeerHandoutLimit: 1 + tp.Draw(5)}
 	c := cluster.New(s, p)
-	c.StartOrigins(1)
-	c.StartTracker()
-	size := tp.Draw(64 << 10)
-	blob := kit.Bytes(s, size)
-	d := c.Seed(c.Origins[0], blob)
-	nAgents := 1 + tp.Draw(3)
-	var wg ssync.WaitGroup
-	results := make([]error, nAgents)
-	agents := make([]*cluster.Agent, nAgents)
-	for i := 0; i < nAgents; i++ {
-		agents[i] = c.StartAgent(i + 1)
+	faulty := tp.Chance(700)
+	if faulty && tp.Chance(500) {
+		c.NW.MaxLatency = time.Duration(tp.Draw(80)) * time.Millisecond
+		c.NW.ChunkPm = tp.Draw(300)
 	}
-	for i := range agents {
-		wg.Add(1)
-		i := i
-		s.GoNode(agents[i].Node, "download", func() {
-			defer wg.Done()
-			simrt.Sleep(time.Duration(tp.Draw(5)) * time.Second)
-			results[i] = agents[i].Sched.Download(cluster.Namespace, d)
-			s.Logf("agent%d download -> %v", i+1, results[i])
+	nOrigins := 1 + tp.Draw(2)
+	c.StartOrigins(nOrigins)
+	c.StartTracker()
+	maxBlob := 96 << 10
+	if thorough {
+		maxBlob = 256 << 10
+	}
+	size := drawSize(tp, p.PieceLength, maxBlob)
+	blob := kit.Bytes(s, size)
+	var d core.Digest
+	for _, o := range c.Origins {
+		d = c.Seed(o, blob)
+	}
+	nAgents := 2 + tp.Draw(3)
+	if thorough {
+		nAgents += tp.Draw(3)
+	}
+	dls := make([]*dl, nAgents)
+	start := func(x *dl, delay time.Duration) {
+		x.returned, x.err = false, nil
+		s.GoNode(x.agent.Node, "download", func() {
+			simrt.Sleep(delay)
+			x.issued = s.Now()
+			err := x.agent.Sched.Download(cluster.Namespace, d)
+			x.err, x.returned, x.at = err, true, s.Now()
+			s.Logf("agent%d download -> %v", x.idx, err)
+			if err == nil {
+				checkBytes(s, x, d, blob, "at_return")
+			}
 		})
 	}
-	wg.Wait()
-	for i, a := range agents {
-		if results[i] != nil {
-			s.Fail("download_failed", "agent%d: %v", i+1, results[i])
+	// --- the corrupting peer: agent 1 completes alone, then its cached copy is damaged
+	first := 0
+	if faulty && size > 0 && tp.Chance(400) {
+		a := c.StartAgent(1)
+		x := &dl{agent: a, idx: 1, corrupt: true}
+		dls[0] = x
+		start(x, 0)
+		waitUntil(s, 10*time.Minute, func() bool { return x.returned })
+		if !x.returned || x.err != nil {
+			s.Fail("no_convergence", "fault-free single agent download did not succeed: returned=%v err=%v", x.returned, x.err)
 		}
-		got, err := a.ReadCache(d)
-		if err != nil || !bytes.Equal(got, blob) {
-			s.Fail("wrong_bytes", "agent%d cache differs from blob (err=%v len=%d want %d)", i+1, err, len(got), len(blob))
+		path := filepath.Join(a.Dir, "cache")
+		damage(s, path, d, size)
+		s.Fault("peer_corrupt_payload")
+		first = 1
+	}
+	if faulty && tp.Chance(400) {
+		s.InjectPauses(1+tp.Draw(3), 20000, 20*time.Second)
+	}
+	for i := first; i < nAgents; i++ {
+		a := c.StartAgent(i + 1)
+		dls[i] = &dl{agent: a, idx: i + 1}
+		start(dls[i], time.Duration(tp.Draw(8))*time.Second)
+	}
+	// --- fault phase
+	if faulty {
+		nf := 1 + tp.Draw(4)
+		aliveOrigins := nOrigins
+		for k := 0; k < nf; k++ {
+			simrt.Sleep(time.Duration(tp.Draw(6000)) * time.Millisecond)
+			switch tp.Draw(5) {
+			case 0: // graceful departure
+				x := dls[tp.Draw(nAgents)]
+				if !x.gone && !x.corrupt {
+					x.gone = true
+					s.Fault("peer_depart")
+					s.Logf("stop agent%d", x.idx)
+					ag := x.agent
+					s.GoNode(ag.Node, "stop", func() { ag.Sched.Stop() })
+				}
+			case 1: // agent crash
+				x := dls[tp.Draw(nAgents)]
+				if !x.gone && !x.corrupt {
+					x.gone = true
+					s.Fault("crash")
+					s.KillNode(x.agent.Node)
+				}
+			case 2: // origin crash, keeping one seeder
+				if aliveOrigins > 1 {
+					aliveOrigins--
+					s.Fault("crash")
+					s.KillNode(c.Origins[aliveOrigins].Node)
+				}
+			case 3: // partition between two nodes, healed later
+				a := dls[tp.Draw(nAgents)].agent.Node
+				var b *simrt.Node
+				if tp.Chance(500) {
+					b = c.Origins[tp.Draw(nOrigins)].Node
+				} else {
+					b = dls[tp.Draw(nAgents)].agent.Node
+				}
+				if a != b {
+					c.NW.Partition(a, b, true)
+					s.Logf("partition %s | %s", a.Name, b.Name)
+				}
+			case 4: // stall one connection end for a while
+				cs := c.NW.Conns()
+				if len(cs) > 0 {
+					cn := cs[tp.Draw(len(cs))]
+					cn.Stall(true)
+					dur := time.Duration(1+tp.Draw(20)) * time.Second
+					simrt.Go(func() { simrt.Sleep(dur); cn.Stall(false) })
+				}
+			}
+		}
+		simrt.Sleep(time.Duration(tp.Draw(10000)) * time.Millisecond)
+	}
+	// --- faults stop
+	c.NW.HealAll()
+	c.NW.Quiet, c.HN.Quiet = true, true
+	for _, cn := range c.NW.Conns() {
+		if cn.Stalled {
+			cn.Stall(false)
 		}
 	}
-	kit.SetSample(map[string]any{"blob": size, "piece_length": p.PieceLength, "agents": nAgents, "digest": d.Hex()[:8]})
-	_ = core.Digest{}
-	_ = fmt.Sprint
+	tStop := s.Now()
+	s.Logf("faults stop")
+	// longest recovery path: an agent may have to wait out a blacklist entry and
+	// an idle connection, be re-announced, re-dial and re-request pieces.
+	cycle := sc.ConnTTI + sc.PreemptionInterval + sc.ConnState.BlacklistDuration + 2*p.AnnounceInterval +
+		sc.Dispatch.PieceRequestMinTimeout + 5*time.Second /*handshake*/ + 30*time.Second /*dial timeout on stale partitions*/
+	bound := 6 * cycle * time.Duration(1+nAgents)
+	pending := func() (n int) {
+		for _, x := range dls {
+			if x.gone || x.corrupt {
+				continue
+			}
+			if x.returned && x.err != nil {
+				// failed because of a fault (or timed out waiting during it): re-issue once
+				if x.at <= tStop+time.Second || x.issued < tStop {
+					s.Probe("download_reissued")
+					start(x, 0)
+					n++
+					continue
+				}
+				s.Fail("download_failed_after_faults_stopped", "agent%d: download issued at %v (faults stopped at %v) returned %v", x.idx, x.issued, tStop, x.err)
+			}
+			if !x.returned {
+				n++
+			}
+		}
+		return n
+	}
+	ok := waitUntil(s, bound, func() bool { return pending() == 0 })
+	if !ok {
+		var who []string
+		for _, x := range dls {
+			if !x.gone && !x.corrupt && !x.returned {
+				who = append(who, fmt.Sprintf("agent%d(issued %v)", x.idx, x.issued))
+			}
+		}
+		s.Fail("no_convergence", "%v still downloading %v after faults stopped (bound %v); origins alive, blob %d bytes, piece %d", who, s.Now()-tStop, bound, size, p.PieceLength)
+	}
+	// final safety check
+	for _, x := range dls {
+		if x.gone || x.corrupt {
+			continue
+		}
+		checkBytes(s, x, d, blob, "final")
+	}
+	kit.SetSample(map[string]any{"blob": size, "piece_length": p.PieceLength, "agents": nAgents, "origins": nOrigins, "faulty": faulty,
+		"max_conns": sc.ConnState.MaxOpenConnectionsPerTorrent, "pipeline": sc.Dispatch.AgentPipelineLimit, "policy": sc.Dispatch.PieceRequestPolicy,
+		"announce_interval": p.AnnounceInterval.String(), "corrupting_peer": first == 1, "bound": bound.String()})
+}
+
+func checkBytes(s *simrt.Sim, x *dl, d core.Digest, blob []byte, when string) {
+	got, err := x.agent.ReadCache(d)
+	if err != nil {
+		s.Fail("success_without_blob", "agent%d reported success but its cache has no readable blob (%s): %v", x.idx, when, err)
+	}
+	if !bytes.Equal(got, blob) {
+		s.Fail("wrong_bytes", "agent%d reported success but its cached copy differs from the blob (%s): %d vs %d bytes", x.idx, when, len(got), len(blob))
+	}
+}
+
+// damage flips one byte of the cached blob file on disk.
+func damage(s *simrt.Sim, cacheDir string, d core.Digest, size int) {
+	var target string
+	filepath.Walk(cacheDir, func(p string, fi os.FileInfo, err error) error {
+		if err == nil && !fi.IsDir() && fi.Name() == "data" && filepath.Base(filepath.Dir(p)) == d.Hex() {
+			target = p
+		}
+		if err == nil && !fi.IsDir() && fi.Name() == d.Hex() {
+			target = p
+		}
+		return nil
+	})
+	if target == "" {
+		s.InfraError("cannot find cached blob file to damage under %s", cacheDir)
+	}
+	b, err := os.ReadFile(target)
+	if err != nil || len(b) != size {
+		s.InfraError("damage: read %v len %d want %d", err, len(b), size)
+	}
+	n := 1 + s.Tape.Draw(3)
+	for i := 0; i < n; i++ {
+		b[s.Tape.Draw(size)] ^= 0x5a
+	}
+	if err := os.WriteFile(target, b, 0o644); err != nil {
+		s.InfraError("damage: %v", err)
+	}
+}
+
+// waitUntil polls cond every fake second until it holds or d elapsed.
+func waitUntil(s *simrt.Sim, d time.Duration, cond func() bool) bool {
+	deadline := s.Now() + d
+	for {
+		if cond() {
+			return true
+		}
+		if s.Now() >= deadline {
+			return false
+		}
+		simrt.Sleep(time.Second)
+	}
 }
 
 func TestC19(t *testing.T) {
 	kit.Main(t, kit.Spec{Property: "C19", Body: body,
-		Config: func(string) simrt.Config { return simrt.Config{MaxSteps: 3_000_000, Horizon: time.Hour} }})
+		Config: func(string) simrt.Config { return simrt.Config{MaxSteps: 20_000_000, Horizon: 12 * time.Hour} },
+		Real: []string{"lib/torrent/scheduler (agent + origin schedulers, conn, dispatch, connstate, announcer, announcequeue)",
+			"lib/torrent/storage/agentstorage + originstorage", "lib/store CAStore / CADownloadStore", "tracker/trackerserver + peerstore.LocalStore + originstore + peerhandoutpolicy",
+			"origin/blobserver (metainfo endpoints) + blobclient", "tracker/announceclient + metainfoclient", "lib/hashring, lib/metainfogen, lib/blobrefresh"},
+		Stub: []string{"TCP (simnet) and HTTP (simhttp) transports", "write-back manager (no-op)", "health-check filter (identity)", "storage backend (none registered)"},
+		Rule: "one run = one swarm: tape-drawn blob/piece sizes, scheduler limits, tracker settings, 1-2 origins, 2-7 agents with drawn join times, and (70% of runs) a fault schedule of departures, crashes, partitions, stalls, latency, slow tasks and a corrupting peer; non-trivial = >=1 contested scheduling decision or fired fault",
+		Assumptions: []string{"seeder/leecher idle limits set far beyond the run (idle drops are C18)", "liveness bound = 6 x (conn idle + preemption + blacklist + 2 announce intervals + piece timeout + handshake + dial timeout) x (agents+1), fake time"},
+	})
 }
